@@ -557,7 +557,7 @@ def run(ctx: Ctx):
         "node lists without repeated nodes, integer labels (bridges orders endpoints with <)",
     ]
     big = ctx.tier == "thorough"
-    cases = all_cases(ctx, ctx.budget(400, 5000), big)
+    cases = all_cases(ctx, ctx.budget(320, 5000), big)
     acc = {k: [] for k in CHECKS}
     for case in cases:
         for what, rep in one_case(ctx, case, acc):
@@ -570,7 +570,7 @@ def run(ctx: Ctx):
     disagree = {}
     for tag, (ty, chk) in CHECKS.items():
         if acc[tag]:
-            failing = ctx.coq_check(tag, IMP, ty, chk, [a[0] for a in acc[tag]], shard=120)
+            failing = ctx.coq_check(tag, IMP, ty, chk, [a[0] for a in acc[tag]], shard=60 if ctx.tier == "quick" else 150)
             if failing:
                 disagree[tag] = [acc[tag][i] for i in failing]
     if (disagree or ctx.broken) and not ctx.violations:
